@@ -22,9 +22,28 @@ ASSUMPTIONS = ["one-dimensional arrays of constants and secrets; histories of re
                "at a SECRET index and then stored at a constant position (`a[0] = a[PrivVal(2)]`), matrices built from previously read rows "
                "(`g = Array([a[PrivVal(1)], a[0]])`), followed by element writes through tuple indices with a constant or secret first "
                "index and reads back; every value also checked against its wire expression on the recorded witness",
-               "not covered by the two-dimensional theorems: ragged matrices and row stores of a row of another length (the code zips: "
-               "see the finding `secret-index row store/read truncates to the shortest row`), rows holding LinCombBool / LinCombFxp "
-               "elements, arrays nested deeper than two levels, Array.__add__/__sub__/__rmul__/assert_eq/joined as user-level operations"]
+               "EMPTY DIMENSIONS (zero-length arrays, n x 0 matrices, matrices without rows, three-level arrays with an empty level): every "
+               "index is outside, so every element access through such a dimension must be refused -- an exception of any class (the "
+               "unchanged tree: IndexError with the checks on, AttributeError with them off; the model raises the same classes: "
+               "C15_empty_refused, C15_empty_refused2) or, with the checks off, a recorded constraint violated by the recorded witness; a "
+               "silent return is a violation.  Executed through the program protocol (`arr` without operands, model-compared), through "
+               "two-dimensional histories (gen_2d_empty, model-compared) and through the direct ND oracle (worker_array2d.py protocol ND: "
+               "one access on an array nested 1-3 levels deep, all index-kind patterns, a[..], a[..][..], a[..] = v, a[..][..] = v, both error modes)",
+               "ACCESSES WITH THE CHECKS OFF (ignore_errors(True)): for every access form and nesting depth 1-3, with the first / a middle / the "
+               "LAST index component secret and outside the array (-1, n, n+3): the run must raise or leave a recorded constraint violated by "
+               "the recorded witness (ND oracle; two-dimensional histories gen_2d_checks_off, whose wires and constraints are also compared "
+               "with the model run in that mode); the HONEST circuit of a read / tuple-index write over a small prime (97; 13 for three "
+               "levels) with the wire of one secret component re-fixed to n, n+3, -1 must be unsatisfiable (exhaustive search, every "
+               "internal wire free); the constraint list must be identical for all values of the secret components and both error modes",
+               "rows of ANOTHER LENGTH built outside the matrix (one shorter / longer) stored at plain indices (legitimate: the matrix becomes "
+               "ragged, as a list of lists would) and at secret indices, then reads and writes: wherever rows have to be combined "
+               "element-wise (a store at a secret row index, a row read at a secret index of a ragged matrix, also inside a branch that is "
+               "not taken) the code must REFUSE with ValueError, never truncate (finding C15-row-store-other-length, repaired; model: "
+               "addRows/subRows raise, theorem C15_other_length_refused; the reference in worker_array2d.py raises at the same points)",
+               "not covered by the history theorems (C15_history2 ...): histories that create rows of another length (Ev.okWidth); rows holding LinCombBool / LinCombFxp "
+               "elements, arrays nested deeper than two levels (single accesses on three-level arrays are covered by the direct ND oracle only), "
+               "Array.__add__/__sub__/__rmul__/assert_eq/joined as user-level operations; an access to an empty dimension inside a branch "
+               "that is NOT taken (the unchanged tree raises AttributeError there: dead code is not inert -- C07's subject) is not generated"]
 PARTIAL = []
 LEVELS = "VS"
 P97 = 97
@@ -61,8 +80,8 @@ def sat_job(job):
         return n, sorted(vals), False
 
 
-# scenario class "a row of another length stored in the matrix": reproduces the recorded finding
-# C15-row-store-other-length (known_findings.json); part of every run (VERIF_C15_OTHER_LENGTH_ROWS=0 turns it off, development aid)
+# scenario class "a row of another length stored in the matrix" (finding C15-row-store-other-length, repaired: such rows are
+# refused with ValueError wherever rows are combined element-wise); part of every run (VERIF_C15_OTHER_LENGTH_ROWS=0 turns it off)
 import os
 OTHER_LENGTH_ROWS = os.environ.get("VERIF_C15_OTHER_LENGTH_ROWS", "1") == "1"
 
@@ -177,6 +196,120 @@ def gen_2d(rnd):
     return h
 
 
+def gen_2d_checks_off(rnd, k):
+    """(T) a two-dimensional history run with the Python-level checks OFF (ignore_errors(True)): a few honest operations, then ONE
+    access with a secret component outside the matrix (-1, n, n+3) in each access form (k selects the form: row / column
+    component of a[i,j], a[i][j], a[i,j] = v with a secret or plain row, r[j], r[j] = v, a[k][j] = v, a[i], a[i] = row, a read
+    in a taken branch), then more operations (compared with the model only: values are unspecified after the access)"""
+    rows = rnd.randrange(2, 4); cols = rnd.randrange(2, 4)
+    h = {"rows": rows, "cols": cols, "secret": rnd.random() < 0.8, "ign": 1,
+         "init": [[rnd.randrange(0, 9) for _ in range(cols)] for _ in range(rows)], "ops": []}
+    ops = h["ops"]; nv = [0]; val = [20]
+
+    def var():
+        nv[0] += 1
+        return f"v{nv[0]}"
+
+    def fresh():
+        val[0] += 1
+        return val[0]
+
+    def good(n, plain_ok=True):
+        c = rnd.random()
+        if c < 0.3 and plain_ok: return ["p", rnd.randrange(n)]
+        if c < 0.5:
+            name = f"i{sum(1 for o in ops if o[0] == 'idx')}"
+            ops.append(["idx", name, True, rnd.randrange(n)])
+            return ["n", name]
+        return ["s", rnd.randrange(n)]
+
+    def bad(n):
+        v = rnd.choice([-1, n, n + 3])
+        if rnd.random() < 0.3:
+            name = f"i{sum(1 for o in ops if o[0] == 'idx')}"
+            ops.append(["idx", name, True, v])
+            return ["n", name]
+        return ["s", v]
+
+    def honest():
+        c = rnd.random()
+        if c < 0.35: ops.append([rnd.choice(["get2", "getrc"]), var(), good(rows), good(cols)])
+        elif c < 0.75: ops.append(["set2", good(rows), good(cols), fresh()])
+        elif c < 0.9: ops.append(["setchain", rnd.randrange(rows), good(cols), fresh()])
+        else:
+            v = var(); ops.append(["row", v, good(rows)]); ops.append(["rowget", var(), v, good(cols)])
+
+    for _ in range(rnd.randrange(0, 3)):
+        honest()
+    forms = ["get2-row", "get2-col", "getrc-row", "getrc-col", "set2-row", "set2-col", "set2-col", "set2-col-plain-row", "rowget", "set1",
+             "setchain", "row", "setrow", "bget-col"]
+    form = forms[k % len(forms)]
+    if form == "get2-row": ops.append(["get2", var(), bad(rows), good(cols)])
+    elif form == "get2-col": ops.append(["get2", var(), good(rows), bad(cols)])
+    elif form == "getrc-row": ops.append(["getrc", var(), bad(rows), good(cols)])
+    elif form == "getrc-col": ops.append(["getrc", var(), good(rows), bad(cols)])
+    elif form == "set2-row": ops.append(["set2", bad(rows), good(cols), fresh()])
+    elif form == "set2-col": ops.append(["set2", good(rows, plain_ok=False), bad(cols), fresh()])
+    elif form == "set2-col-plain-row": ops.append(["set2", ["p", rnd.randrange(rows)], bad(cols), fresh()])
+    elif form == "rowget":
+        v = var(); ops.append(["row", v, good(rows)]); ops.append(["rowget", var(), v, bad(cols)])
+    elif form == "set1":
+        v = var(); ops.append(["row", v, ["p", rnd.randrange(rows)]]); ops.append(["set1", v, bad(cols), fresh()])
+    elif form == "setchain": ops.append(["setchain", rnd.randrange(rows), bad(cols), fresh()])
+    elif form == "row": ops.append(["row", var(), bad(rows)])
+    elif form == "setrow":
+        v = var(); ops.append(["row", v, good(rows)]); ops.append(["setrow", bad(rows), v])
+    else: ops.append(["bget", var(), 1, good(rows), bad(cols)])
+    for _ in range(rnd.randrange(0, 3)):
+        honest()
+    return h
+
+
+def gen_2d_empty(rnd, k):
+    """(E) matrices with an EMPTY dimension (no rows; 1-3 rows without elements) and rows built outside without elements, checks on
+    (k even) and off (k odd): operations on whole rows (legitimate for an n x 0 matrix), then one ELEMENT access in each form,
+    index components secret / plain, values 0, 1, -1, 3: every one of them is outside"""
+    rows = [0, 1, 2, 3][(k // 2) % 4]
+    h = {"rows": rows, "cols": 0, "secret": True, "ign": k % 2, "init": [[] for _ in range(rows)], "ops": []}
+    ops = h["ops"]; nv = [0]
+
+    def var():
+        nv[0] += 1
+        return f"v{nv[0]}"
+
+    def anyix(n=None):
+        """an index specification; inside [0, n) if n is given"""
+        v = rnd.randrange(n) if n else rnd.choice([0, 1, -1, 3])
+        c = rnd.random()
+        if c < 0.3: return ["p", v]
+        if c < 0.5:
+            name = f"i{sum(1 for o in ops if o[0] == 'idx')}"
+            ops.append(["idx", name, True, v])
+            return ["n", name]
+        return ["s", v]
+
+    rowvar = None
+    if rows and rnd.random() < 0.6:
+        rowvar = var(); ops.append(["row", rowvar, anyix(rows)])
+        if rnd.random() < 0.4:
+            c = var(); ops.append(["copy", c, rowvar]); rowvar = c
+        if rnd.random() < 0.4:
+            ops.append(["setrow", ["s", rnd.randrange(rows)], rowvar])
+    if rowvar is None or rnd.random() < 0.3:
+        rowvar = var(); ops.append(["newrow", rowvar, []])
+    forms = ["get2", "getrc", "set2", "rowget", "set1"] + (["setchain"] if rows else ["row", "setrow"])
+    form = forms[(k // 8) % len(forms)]
+    r = anyix(rows or None)
+    if form in ("get2", "getrc"): ops.append([form, var(), r, anyix()])
+    elif form == "set2": ops.append(["set2", r, anyix(), 7])
+    elif form == "rowget": ops.append(["rowget", var(), rowvar, anyix()])
+    elif form == "set1": ops.append(["set1", rowvar, anyix(), 7])
+    elif form == "setchain": ops.append(["setchain", rnd.randrange(rows), anyix(), 7])
+    elif form == "row": ops.append(["row", var(), r])
+    else: ops.append(["setrow", r, rowvar])
+    return h
+
+
 def classify_2d(h, at):
     """scenario class of a two-dimensional history (for the violation signature): what preceded the operation at which it
     went wrong (or the whole history)"""
@@ -197,7 +330,8 @@ def classify_2d(h, at):
             if op[0] == "bget" and not op[2]: branch = True
         if op[0] in ("setchain", "set1"): bypass = True
     return {"index_object_reused": reuse, "write_through_row": bypass, "index_first_used_in_branch_not_taken": branch,
-            "secret_read_row_stored_in_matrix": stored, "row_of_other_length_stored": other}
+            "secret_read_row_stored_in_matrix": stored, "row_of_other_length_stored": other,
+            "checks_off": bool(h.get("ign")), "empty_dimension": not h["init"] or any(not r for r in h["init"])}
 
 
 def model_diff_2d(real, mrep, names):
@@ -240,6 +374,8 @@ def model_diff_2d(real, mrep, names):
 def explore_2d(ctx, ex):
     import json
     hs = [gen_2d(ctx.rnd) for _ in range(ctx.n(700, 14000))]
+    hs += [gen_2d_checks_off(ctx.rnd, k) for k in range(ctx.n(140, 2800))]
+    hs += [gen_2d_empty(ctx.rnd, k) for k in range(ctx.n(112, 1120))]
     outs = common.run_workers([f"A2|a{i}|{json.dumps(h)}" for i, h in enumerate(hs)], script="worker_array2d.py")
     # the same histories on the model (lean/PysnarkModel/Model/Array2D.lean through Driver/ProtoArray2D.lean)
     ok, out, _ = common.lake_build(["PysnarkModel.Driver.ProtoArray2D"])
@@ -288,10 +424,302 @@ def explore_2d(ctx, ex):
             if d.get("incoh"):
                 ex.violations.append(Violation(dict(cls, instr="array2d", dev="incoherent"),
                                                f"two-dimensional history: value of {d['incoh'][0]} differs from its wire expression on the recorded witness", {"history": h}))
+        elif h.get("ign") and d["refstatus"] == "IndexError" and d["status"] != "TypeError":
+            # checks off, an index outside the array (or any access through an empty dimension): a refusal of any class is
+            # fine; a completed operation must have recorded a constraint that the recorded witness violates
+            if d["status"] == "ok" and not d["unsat_first"]:
+                ex.violations.append(Violation(dict(cls, instr="array2d", dev="out-of-range-silent"),
+                                               f"two-dimensional history, checks off: operation #{d['at']} {h['ops'][d['at']]} uses an index outside the "
+                                               f"array; it completes and every constraint recorded up to its end holds on the recorded witness: an "
+                                               f"access outside the array can be proven", {"history": h}))
         elif d["status"] != d["refstatus"] and "TypeError" not in (d["status"], d["refstatus"]):
             ex.violations.append(Violation(dict(cls, instr="array2d", dev="raises", error=d["status"], expected=d["refstatus"]),
                                            f"two-dimensional history: operation #{d.get('at')} {h['ops'][d['at']] if d.get('at') is not None else ''} "
                                            f"ends with {d['status']}, list semantics with {d['refstatus']}", {"history": h}))
+
+
+
+# ---------------------------------------------------------------------------------------------------------------------------
+# Scenario classes added after the sixth seeded round (DESIGN.md 10.6)
+#
+# (E) EMPTY DIMENSIONS.  A zero-length array, an n x 0 / 0 x n matrix, a three-level array with an empty level: EVERY index is
+#     outside such a dimension, so every element access through it must be REFUSED — an exception (IndexError with the checks
+#     on; with the checks off the unchanged tree raises AttributeError, because `sum([])` is the int 0: any class is a refusal)
+#     or, with the checks off, a recorded constraint that the recorded witness violates.  A silent return is a violation.
+#     All access forms (a[i], a[i] = v, a[i,j], a[i][j], a[i,j] = v, a[k][j] = v, rows), index components secret / plain, both
+#     error modes.  Three carriers: the one-dimensional program protocol (`arr` without operands: model-compared), the
+#     two-dimensional histories (`gen_2d_empty`: model-compared, Model/Array2D.lean) and the direct `ND` oracle (1-3 levels).
+# (T) TUPLE-INDEX WRITES (AND READS) WITH A COMPONENT OUTSIDE THE ARRAY, CHECKS OFF.  `a[i,j] = v`, `a[i,j,k] = v` with the
+#     first / a middle / the LAST component secret and outside (-1, n, n+3): (a) run under ignore_errors(True) the recorded
+#     witness must violate a recorded constraint (`out-of-range-silent` otherwise); (b) the HONEST circuit over p = 97 with the
+#     component's wire re-fixed to the outside value (all other inputs as recorded, every internal wire free) must be
+#     unsatisfiable (`out-of-range-provable` otherwise); (c) the circuit must be the same for every index value.
+#     Carriers: `ND` oracle (1-3 levels, every kind pattern) and two-dimensional histories run with the checks off
+#     (`gen_2d_checks_off`: model-compared at S+W, so the model's constraint list is compared with the code's in that mode too).
+
+def empty_array_case(rnd, cid, k):
+    """one access to a ZERO-LENGTH array through the program protocol (model-compared): secret / plain index, read / write,
+    checks on / off, index values 0, 1, -1, 3"""
+    form = ["aget-s", "aset-s", "aget-p", "aset-p"][(k // 2) % 4]
+    iv = [0, 1, -1, 3][(k // 8) % 4]
+    cfg = {"p": common.BN128, "bl": 8, "res": 0, "ign": k % 2}
+    b = progs.Builder(rnd, cfg)
+    arr = b.emit("arr", "A")
+    idx = b.operand("L" if form.endswith("-s") else "I", value=iv)
+    if form.startswith("aget"):
+        b.emit(f"aget r{arr} r{idx}", "?")
+    else:
+        v = b.operand(rnd.choice("LI"), value=7)
+        b.emit(f"aset r{arr} r{idx} r{v}", "N")
+    return progs.Case(cid, cfg, b.ins, {"shape": "empty-array", "op": form, "kinds": "n0", "iv": iv, "malformed": True})
+
+
+def nd_build(shape, cnt=None):
+    cnt = cnt if cnt is not None else [0]
+    if len(shape) == 1:
+        out = []
+        for _ in range(shape[0]):
+            cnt[0] += 1; out.append(cnt[0])
+        return out
+    return [nd_build(shape[1:], cnt) for _ in range(shape[0])]
+
+
+def nd_ref(h):
+    """Python-list semantics of one access (harness/worker_array2d.py, protocol ND): {"oob": level or None, "kind", "res", "after"};
+    components are evaluated left to right; a secret component must lie in [0, n), a plain one in [-n, n)"""
+    import copy
+    before = nd_build(h["shape"])
+    after = copy.deepcopy(before)
+    cur = after; parent = None
+    for lvl, (kind, v) in enumerate(h["idx"]):
+        n = len(cur)
+        if (kind == "s" and not 0 <= v < n) or (kind == "p" and not -n <= v < n):
+            return {"oob": lvl, "kind": "secret" if kind == "s" else "plain", "before": before}
+        parent = cur; cur = cur[v]
+    if h["op"].startswith("set"):
+        parent[h["idx"][-1][1]] = h["val"]
+        return {"oob": None, "before": before, "after": after, "res": None}
+    return {"oob": None, "before": before, "after": before, "res": cur}
+
+
+ND_EMPTY = [[0], [2, 0], [3, 0], [0, 2], [0, 0], [2, 2, 0], [2, 0, 2], [0, 2, 2]]
+ND_SHAPES = [[1], [2], [3], [4], [2, 2], [3, 2], [2, 3], [1, 3], [2, 2, 2], [2, 3, 2], [3, 1, 2]]
+ND_SMALL = [[2], [3], [2, 2], [3, 2], [2, 2, 2]]          # witness-space search over p = 97
+
+
+def nd_cases(rnd, thorough=False):
+    """(E) and (T): enumerated (every class is in every run, whatever the seed), values drawn"""
+    import itertools
+    out = []
+
+    def comp(kind, n, outside):
+        if outside:
+            return rnd.choice([-1, n, n + 3]) if kind == "s" else rnd.choice([n, -n - 1])
+        return rnd.randrange(n) if kind == "s" or rnd.random() < 0.8 else rnd.randrange(-n, 0)
+
+    def mk(shape, op, kinds, ign, bad=None, badval=None, secret=None):
+        idx = []
+        for lvl, kind in enumerate(kinds):
+            n = shape[lvl]
+            if n == 0:
+                v = rnd.choice([0, 1, -1, 3])
+            elif lvl == bad:
+                v = badval if badval is not None else comp(kind, n, True)
+            else:
+                v = comp(kind, n, False)
+            idx.append([kind, v])
+        h = {"shape": shape, "secret": (rnd.random() < 0.8) if secret is None else secret, "idx": idx, "op": op, "ign": ign}
+        if op.startswith("set"):
+            h["val"] = 70 + rnd.randrange(20); h["valsecret"] = rnd.random() < 0.7
+        if len(idx) == 1 and rnd.random() < 0.15:
+            h["tuple1"] = True
+        return h
+
+    for shape in ND_EMPTY:
+        d = len(shape)
+        for ign in (0, 1):
+            for op in ("get", "getchain", "set", "setchain"):
+                for kinds in itertools.product("sp", repeat=d):
+                    if op == "setchain" and "s" in kinds[:-1]:
+                        continue        # a[PrivVal(i)][j] = v is refused by design (ArrayRow)
+                    out.append(mk(shape, op, kinds, ign))
+            if d > 1:                   # rows of a matrix with an empty dimension
+                for kind in "sp":
+                    out.append(mk(shape, "get", (kind,), ign))
+    for shape in ND_SHAPES:
+        d = len(shape)
+        for ign in (0, 1):
+            for op in ("get", "getchain", "set", "setchain"):
+                for kinds in itertools.product("sp", repeat=d):
+                    if op == "setchain" and "s" in kinds[:-1]:
+                        continue
+                    for bad in [None] + list(range(d)):
+                        last_secret_write = op == "set" and d > 1 and bad == d - 1 and kinds[-1] == "s"
+                        if last_secret_write:
+                            # the class of 10.6 (T): every outside value, checks on and off
+                            for bv in (-1, shape[bad], shape[bad] + 3):
+                                out.append(mk(shape, op, kinds, ign, bad, bv))
+                        elif thorough or bad is None or d < 3 or rnd.random() < 0.5:
+                            out.append(mk(shape, op, kinds, ign, bad))
+    return out
+
+
+def nd_small_cases(rnd):
+    """honest accesses over a small prime whose circuits are handed to the witness-space search: p = 97 for one and two
+    levels, p = 13 for three (each in-range secret component leaves one free auxiliary wire — the `inverse` of the zero
+    difference — so the search tree has p^(number of earlier secret components) branches before the last one-hot vector)"""
+    import itertools
+    out = []
+    for shape in ND_SMALL:
+        d = len(shape)
+        for op in ("get", "set"):
+            for kinds in itertools.product("sp", repeat=d):
+                if "s" not in kinds:
+                    continue
+                h = {"shape": shape, "secret": True, "idx": [[k, rnd.randrange(shape[l])] for l, k in enumerate(kinds)], "op": op,
+                     "ign": 0, "p": P97 if d < 3 else 13}
+                if op == "set":
+                    h["val"] = 9 + rnd.randrange(4); h["valsecret"] = True
+                out.append(h)
+    return out
+
+
+def nd_class(h, ref=None):
+    ref = ref or nd_ref(h)
+    d = len(h["shape"])
+    where = None
+    if ref["oob"] is not None:
+        where = "only" if d == 1 else "first" if ref["oob"] == 0 else "last" if ref["oob"] == d - 1 else "middle"
+    return {"instr": "arraynd", "op": h["op"], "depth": d,
+            "empty_dimension": 0 in h["shape"], "outside": None if where is None else f"{ref['kind']}-{where}",
+            "mode": "checks-off" if h.get("ign") else "checks-on"}
+
+
+def nd_sat_job(job):
+    """is the system satisfiable?  (True / False, complete?)"""
+    cons, fixed, unknown, p, limit = job
+    try:
+        for _ in solve.solve(cons, fixed, unknown, p, limit=limit):
+            return True, True
+        return False, True
+    except solve.Limit:
+        return False, False
+
+
+def nd_run(hs):
+    import json
+    outs = common.run_workers([f"ND|n{i}|{json.dumps(h)}" for i, h in enumerate(hs)], script="worker_array2d.py")
+    res = []
+    for o in outs:
+        d = json.loads(o.split("|", 1)[1])
+        if "harness-error" in d:
+            raise common.Infra(str(d))
+        res.append(d)
+    return res
+
+
+def nd_transplant_job(h, d, lvl, value, limit=3000000):
+    """the circuit of the honest access `h` (result `d`), all inputs as recorded except the wire of component `lvl`, which is
+    fixed to `value`; every wire created by the access is unknown"""
+    p = h["p"]
+    cons = solve.parse_cons(d["cons"])
+    fixed = {f"w{i + 1}": d["priv"][i] % p for i in range(d["ninputs"])}
+    fixed[d["idxw"][lvl]] = value % p
+    unknown = [f"w{i + 1}" for i in range(d["ninputs"], len(d["priv"]))]
+    return (cons, fixed, unknown, p, limit)
+
+
+def explore_nd(ctx, ex):
+    hs = nd_cases(ctx.rnd, ctx.thorough())
+    ds = nd_run(hs)
+    groups = {}
+    for h, d in zip(hs, ds):
+        ex.evaluations += 1
+        ref = nd_ref(h); cls = nd_class(h, ref)
+        ex.count(f"nd:{d['status']}")
+        ex.count("nd:" + ("empty-dimension" if cls["empty_dimension"] else f"depth{cls['depth']}") + f":{cls['op']}:{cls['mode']}:" +
+                 (cls["outside"] or "inside"))
+        ex.distinct.add(("nd", tuple(h["shape"]), h["op"], "".join(k for k, _ in h["idx"]), cls["outside"], h.get("ign")))
+        rp = {"nd": h}
+        what = f"{h['op']} at {h['idx']} on an array of shape {h['shape']} ({cls['mode']})"
+        if ref["oob"] is None:
+            if d["status"] != "ok":
+                ex.violations.append(Violation(dict(cls, dev="raises", error=d["status"]),
+                                               f"{what}: every component is inside the array, the access raises {d['status']}: {d['msg']}", rp))
+            elif d["after"] != ref["after"] or (h["op"].startswith("get") and d["res"] != ref["res"]):
+                ex.violations.append(Violation(dict(cls, dev="wrong-value"),
+                                               f"{what}: array {d['after']} value read {d['res']}; list semantics: {ref['after']}, {ref['res']}", rp))
+            elif d["unsat"]:
+                ex.violations.append(Violation(dict(cls, dev="unsatisfied"), f"{what}: constraint #{d['unsat'][0]} not satisfied by the recorded witness", rp))
+            elif d["incoh"]:
+                ex.violations.append(Violation(dict(cls, dev="incoherent"), f"{what}: the value read differs from its wire expression on the recorded witness", rp))
+        elif d["status"] == "ok":
+            # a component outside the array (for an empty dimension: any component) and no exception
+            if not h.get("ign") or ref["kind"] == "plain":
+                ex.violations.append(Violation(dict(cls, dev="out-of-range-accepted"),
+                                               f"{what}: component #{ref['oob']} is outside the array and nothing is raised "
+                                               f"(value read {d['res']}, array afterwards {d['after']})", rp))
+            elif not d["unsat"]:
+                ex.violations.append(Violation(dict(cls, dev="out-of-range-silent"),
+                                               f"{what}: component #{ref['oob']} is outside the array; the access completes (value read {d['res']}, "
+                                               f"array afterwards {d['after']}) and ALL {len(d['cons'])} recorded constraints hold on the recorded "
+                                               f"witness: an access outside the array can be proven", rp))
+        if any(d["dirty"]) and d["status"] == "ok":
+            ex.violations.append(Violation(dict(cls, dev="state-left-dirty"), f"{what}: guard / ONE not restored", rp))
+        if d["status"] == "ok":
+            # plain components and a plain value written are constants of the circuit
+            key = (tuple(h["shape"]), h["op"], tuple(k if k == "s" else v for k, v in h["idx"]), h["secret"],
+                   h.get("valsecret") or h.get("val"), h.get("tuple1"))
+            groups.setdefault(key, []).append((h, d))
+    # (c) the circuit does not depend on the values of the secret components (nor on the error mode)
+    for key, members in groups.items():
+        h0, d0 = members[0]
+        for h1, d1 in members[1:]:
+            if d1["cons"] != d0["cons"] or len(d1["priv"]) != len(d0["priv"]):
+                k = next((i for i, (a, b) in enumerate(zip(d0["cons"], d1["cons"])) if a != b), min(len(d0["cons"]), len(d1["cons"])))
+                ex.violations.append(Violation(dict(nd_class(h1), outside=None, mode=None, dev="shape-depends-on-index"),
+                                               f"{h1['op']} on shape {h1['shape']}: the constraints differ between index {h0['idx']} (checks "
+                                               f"{'off' if h0.get('ign') else 'on'}: {len(d0['cons'])} constraints) and {h1['idx']} (checks "
+                                               f"{'off' if h1.get('ign') else 'on'}: {len(d1['cons'])}), first at #{k}", {"nd": h0, "nd_b": h1}))
+                break
+    # (b) witness-space search: the honest circuit with one secret component re-fixed to a value outside the array
+    small = nd_small_cases(ctx.rnd)
+    sds = nd_run(small)
+    jobs = []; meta = []
+    for h, d in zip(small, sds):
+        ex.evaluations += 1
+        if d["status"] != "ok" or d["unsat"]:
+            ex.violations.append(Violation(dict(nd_class(h), dev="raises" if d["status"] != "ok" else "unsatisfied", field="small-prime"),
+                                           f"honest {h['op']} at {h['idx']} on shape {h['shape']} over p = {h['p']}: {d['status']} {d['msg']} {d['unsat']}", {"nd": h}))
+            continue
+        for lvl, (kind, v) in enumerate(h["idx"]):
+            if kind != "s":
+                continue
+            n = h["shape"][lvl]
+            for value in (n, n + 3, -1):
+                jobs.append(nd_transplant_job(h, d, lvl, value)); meta.append((h, d, lvl, value))
+        # control: the recorded (inside) assignment of the inputs is satisfiable
+        jobs.append(nd_transplant_job(h, d, next(l for l, (k, _) in enumerate(h["idx"]) if k == "s"),
+                                      next(v for k, v in h["idx"] if k == "s"))); meta.append((h, d, None, None))
+    with mp.Pool(12) as pool:
+        res = pool.map(nd_sat_job, jobs, chunksize=2)
+    for (h, d, lvl, value), (sat, complete) in zip(meta, res):
+        dd = len(h["shape"])
+        ex.count("nd-search:" + ("complete" if complete else "limit"))
+        if not complete:
+            continue
+        if lvl is None:
+            if not sat:
+                raise common.Infra(f"witness search: the recorded assignment of {h} is reported unsatisfiable")
+            continue
+        ex.distinct.add(("nd-search", tuple(h["shape"]), h["op"], "".join(k for k, _ in h["idx"]), lvl, value))
+        if sat:
+            where = "only" if dd == 1 else "first" if lvl == 0 else "last" if lvl == dd - 1 else "middle"
+            ex.violations.append(Violation(dict(nd_class(h), outside=f"secret-{where}", mode="witness-search", dev="out-of-range-provable"),
+                                           f"{h['op']} at {h['idx']} on shape {h['shape']} over p = {h['p']}: with the wire of component #{lvl} set to "
+                                           f"{value} (outside [0, {h['shape'][lvl]})) and every other input as recorded, the {len(d['cons'])} "
+                                           f"constraints of the honest circuit are satisfiable: an access outside the array can be proven",
+                                           {"nd": h, "transplant": {"component": lvl, "value": value}}))
 
 
 def explore(ctx, extended=False, focus=None):
@@ -300,9 +728,14 @@ def explore(ctx, extended=False, focus=None):
                "element read back: values vs Python lists, V+S correspondence with the model; the same history with other index "
                "values: identical shapes; (b) two-dimensional histories (gen_2d): code vs list-of-lists reference vs model "
                "(V after every operation, error class and position, S+W of the whole run); (c) tiny instances over p=97: in-range "
-               "read determined, out-of-range index unsatisfiable; distinct = (history, length, index classes, bitlength)")
+               "read determined, out-of-range index unsatisfiable; (d) zero-length arrays through the program protocol, matrices with an empty "
+               "dimension and histories with the checks off through (b), single accesses on arrays nested 1-3 levels deep (ND oracle: "
+               "empty dimensions, a component outside with the checks on / off, honest circuits over p=97/13 with one component re-fixed "
+               "outside: unsatisfiable; same circuit for every index value); distinct = (history, length, index classes, bitlength)")
     n = ctx.n(900, 18000) * (3 if extended else 1)
     cases = corpus_cases("C15") + [progs.array_case(ctx.rnd, f"c15_{i}") for i in range(n)]
+    # (E) zero-length arrays: every access form x index value x error mode, twice (other operand kinds)
+    cases += [empty_array_case(ctx.rnd, f"c15e_{i}", i) for i in range(64 * (3 if extended else 1))]
     recs = execute_all(cases)
     from .c06 import twin as c06_twin, first_difference
     twins = execute_all([c06_twin(c, ctx.rnd, invalid=False) for c in cases], with_model=False)
@@ -325,9 +758,29 @@ def explore(ctx, extended=False, focus=None):
                 sig = instr_sig(r.case, r.regs, i); sig["dev"] = "wrong-value"
                 ex.violations.append(Violation(sig, f"r{i} ({r.case.instrs[i]}): {d} (Python list semantics)", {"case": r.case.line()}))
                 break
-        if not r.ok and r.case.cfg["ign"] == 0 and r.errpos is not None and r.errpos < len(r.case.instrs):
-            pass
+        if m.get("shape") == "empty-array":
+            # every index is outside a zero-length array: the access (the last instruction) must be refused -- an exception of any
+            # class, or, with the checks off and a secret index, a recorded constraint that the recorded witness violates
+            secret = m["op"].endswith("-s")
+            if r.ok and not (secret and r.case.cfg["ign"] == 1 and r.unsat):
+                ex.violations.append(Violation({"instr": m["op"].split("-")[0], "index": "secret" if secret else "plain",
+                                                "scenario": "zero-length-array", "mode": "checks-off" if r.case.cfg["ign"] else "checks-on",
+                                                "dev": "out-of-range-silent" if r.case.cfg["ign"] else "out-of-range-accepted"},
+                                               f"{r.case.instrs[-1]} on an array of length 0 (index value {m['iv']}, checks "
+                                               f"{'off' if r.case.cfg['ign'] else 'on'}) completes: result {r.regs[-1][:60]}, {len(r.cons)} constraints "
+                                               f"recorded, none violated by the recorded witness", {"case": r.case.line()}))
+            continue
         # an out-of-range secret index must raise when checks are on
+        if r.case.cfg["ign"] == 1:
+            # ... and with the checks off the first such access must leave a constraint that the recorded witness violates
+            for i, ins in enumerate(r.case.instrs[:len(r.regs)]):
+                w = ins.split()
+                if w[0] in ("aget", "aset") and R.regs[i][0] == "RAISE":
+                    if R.kinds[int(w[2][1:])] != "I" and i < len(r.nc) and not any(u < r.nc[i][0] for u in r.unsat):
+                        sig = instr_sig(r.case, r.regs, i); sig["dev"] = "out-of-range-silent"; sig["mode"] = "checks-off"
+                        ex.violations.append(Violation(sig, f"{ins}: secret index outside the array, checks off: the access completes and every "
+                                                            f"constraint recorded so far holds on the recorded witness", {"case": r.case.line()}))
+                    break
         if r.case.cfg["ign"] == 0:
             for i, ins in enumerate(r.case.instrs[:len(r.regs)]):
                 w = ins.split()
@@ -348,6 +801,7 @@ def explore(ctx, extended=False, focus=None):
         if len(ex.samples) < 5 and r.cons:
             ex.samples.append(r.case.line())
     explore_2d(ctx, ex)
+    explore_nd(ctx, ex)
     # (c) witness search on tiny instances
     small = [small_array_case(ctx.rnd, f"c15s_{i}", oob=(i % 2 == 1)) for i in range(ctx.n(240, 4500))]
     srecs = execute_all(small)
@@ -388,6 +842,19 @@ def explore(ctx, extended=False, focus=None):
 
 def replay(ctx, payload):
     rp = payload["replay"]
+    if "nd" in rp:
+        import json
+        for key in ("nd", "nd_b"):
+            if key in rp:
+                d = nd_run([rp[key]])[0]
+                print(f"{key}   :", json.dumps(rp[key]))
+                print("impl :", json.dumps({k: v for k, v in d.items() if k not in ("cons", "priv")}), f"{len(d['cons'])} constraints")
+                print("lists:", json.dumps(nd_ref(rp[key])))
+        if "transplant" in rp:
+            t = rp["transplant"]; d = nd_run([rp["nd"]])[0]
+            sat, complete = nd_sat_job(nd_transplant_job(rp["nd"], d, t["component"], t["value"]))
+            print(f"search: component #{t['component']} fixed to {t['value']}: satisfiable={sat} complete={complete}")
+        return 0
     if "history" in rp:
         import json
         out = common.run_workers([f"A2|r|{json.dumps(rp['history'])}"], script="worker_array2d.py")[0]
